@@ -18,7 +18,7 @@ TARGETS = ['C05/Props.vo', 'C05/Corr.vo']
 MODEL_TARGETS = ['C05/Corr.vo']
 PROPS_FILE = 'C05/Props.v'
 PROPS_MODULE = 'QV.C05.Props'
-CORR_IMPORTS = ['QV.C05.Model', 'QV.C05.Corr']
+CORR_IMPORTS = ['QV.C05.Model', 'QV.C05.Param', 'QV.C05.Corr']
 CHECK_CORR = 'check_corr'
 CHECK_SPEC = 'check_spec'
 SHARD = 60
@@ -158,20 +158,28 @@ class Gen:
         k = rng.choice(kinds)
         if k == 'seq':
             n = rng.choice([1, 2, 2, 3])
-            return {'k': 'seq', 'id': self.ident(), 'meas': self.meas(3),
-                    'subs': [self.tree(depth - 1, chans, idxs) for _ in range(n)]}
+            subs = []
+            for _ in range(n):
+                if subs and rng.random() < 0.12:
+                    subs.append(copy.deepcopy(rng.choice(subs)))     # the same sub-template twice (aliasing when shared)
+                else:
+                    subs.append(self.tree(depth - 1, chans, idxs))
+            return {'k': 'seq', 'id': self.ident(), 'meas': self.meas(3), 'subs': subs}
         if k == 'rep':
             return {'k': 'rep', 'id': self.ident(), 'meas': self.meas(3), 'n': rng.choice([0, 1, 2, 2, 3]),
                     'body': self.tree(depth - 1, chans, idxs)}
         if k == 'for':
-            name = 'ijl'[len(idxs)] if len(idxs) < 3 else None
-            if name is None:
+            free = [n for n in 'ijl' if n not in idxs]
+            if not free:
                 return self.atom(chans, idxs)
+            name = free[0]
             r = rng.choice([[0, 2, 1], [0, 3, 1], [1, 3, 1], [2, 0, -1], [0, 4, 2], [3, -1, -2], [0, 0, 1], [2, 1, 1],
                             [0, 1, 1], [1, 6, 3]])
             body = self.tree(depth - 1, chans, idxs + [name])
-            if not uses_idx(body, name) and not force_idx(body, name, _fr(F(rng.choice([-1, 1, 2]), 2))):
-                return body
+            if not uses_idx(body, name):
+                force_idx(body, name, _fr(F(rng.choice([-1, 1, 2]), 2)))
+                if not uses_idx(body, name):
+                    return body
             return {'k': 'for', 'id': self.ident(), 'meas': self.meas(3), 'idx': name, 'range': r, 'body': body}
         if k == 'map':
             pool = [c for c in 'ABCXYZ']
@@ -186,6 +194,9 @@ class Gen:
                 chmap = {a: b for a, b in chmap.items() if a != b} or chmap      # partial mapping: identity implied
             sub = self.tree(depth - 1, inner, idxs)
             node = {'k': 'map', 'id': self.ident(0.25), 'chmap': chmap, 'sub': sub}
+            pm = self.pmap(sub, idxs) if rng.random() < 0.6 else None
+            if pm:
+                node['pmap'] = pm
             names = sorted(meas_names(sub))
             if names and rng.random() < 0.6:
                 node['mmap'] = {n: rng.choice(['m', 'n', 'k']) for n in names if rng.random() < 0.7} or \
@@ -214,6 +225,27 @@ class Gen:
             return {'k': 'rev', 'id': self.ident(0.3), 'sub': self.tree(depth - 1, chans, idxs)}
         raise ValueError(k)
 
+    def pmap(self, sub, idxs, p_self=0.6):
+        """parameter mapping of a MappingPT around `sub`: keys = names sub reads, expressions over the names in scope;
+        on purpose: a name rebound to an expression of ITSELF, a swap of two names, a name rebound to another index"""
+        rng = self.rng
+        fn = sorted(free_names(sub))
+        if not fn or not idxs:
+            return None
+        if len(fn) >= 2 and rng.random() < 0.25:
+            a, b = rng.sample(fn, 2)
+            return {a: ['0', b, '1'], b: ['0', a, '1']}
+        pm = {}
+        for n in fn:
+            if rng.random() < 0.65:
+                tgt = n if rng.random() < p_self and n in idxs else rng.choice(idxs)
+                e = [_fr(rng.choice([0, 0, 1, -1, F(1, 2), 2])), tgt, _fr(rng.choice([1, 1, -1, 2, F(1, 2)]))]
+                t2 = rng.choice(idxs)
+                if t2 != tgt and rng.random() < 0.3:
+                    e += [t2, _fr(rng.choice([1, -1, F(1, 2)]))]
+                pm[n] = e
+        return pm or None
+
     def trafo(self, chans, allow_chain=True):
         rng = self.rng
         k = rng.choice(['offset', 'scale', 'parallel', 'linear', 'chain'] if allow_chain else
@@ -241,19 +273,42 @@ class Gen:
         return {'k': 'chain', 'ts': [t1, t2]}, c2
 
 
-def uses_idx(node, name):
-    def num_uses(x):
-        return isinstance(x, list) and x[1] == name and F(x[2]) != 0
+def expr_names(x):
+    return {n for n, k in I.terms(x) if k != 0}
+
+
+def free_names(node):
+    """parameter names a template reads from the scope that reaches it (= PulseTemplate.parameter_names for the
+    generated shapes): a ForLoopPT binds its index, a MappingPT replaces the mapped names by the names of their
+    expressions"""
     k = node['k']
+    own = set()
+    for m in node.get('meas', []):
+        own |= expr_names(m[1]) | expr_names(m[2])
     if k == 'const':
-        return num_uses(node['dur']) or any(num_uses(v) for v in node['vals'].values())
+        return own.union(expr_names(node['dur']), *[expr_names(v) for v in node['vals'].values()])
     if k == 'table':
-        return any(num_uses(e[1]) for es in node['entries'].values() for e in es)
+        return own.union(*[expr_names(e[0]) | expr_names(e[1]) for es in node['entries'].values() for e in es])
     if k == 'func':
-        return num_uses(node['b'])
+        return own | expr_names(node['b']) | expr_names(node['dur'])
     if k == 'amc':
-        return any(uses_idx(c, name) for c in node['subs'])
-    return any(uses_idx(c, name) for c in I.children(node))
+        return own.union(*[free_names(c) for c in node['subs']])
+    if k == 'for':
+        return own | (free_names(node['body']) - {node['idx']})
+    if k == 'map':
+        inner = free_names(node['sub'])
+        pm = node.get('pmap') or {}
+        return (inner - set(pm)).union(*[expr_names(e) for n, e in pm.items() if n in inner])
+    if k == 'par':
+        own = own.union(*[expr_names(v) for v in node['ov'].values()])
+    if k == 'arith':
+        sc = node['scalar']
+        own = own.union(*[expr_names(v) for v in (sc.values() if isinstance(sc, dict) else [sc])])
+    return own.union(*[free_names(c) for c in I.children(node)])
+
+
+def uses_idx(node, name):
+    return name in free_names(node)
 
 
 def meas_names(node):
@@ -290,6 +345,8 @@ def force_idx(node, name, k):
         return False
     if node['k'] == 'amc':
         return any(force_idx(ch, name, k) for ch in node['subs'])
+    if node['k'] == 'map' and name in (node.get('pmap') or {}):
+        return False                 # the name is rebound below this mapping (the caller re-checks uses_idx)
     return any(force_idx(ch, name, k) for ch in I.children(node))
 
 
@@ -356,7 +413,34 @@ def est_ticks(node, step, env=None):
         return node['n'] * est_ticks(node['body'], step, env)
     if k == 'for':
         return sum(est_ticks(node['body'], step, dict(env, **{node['idx']: v})) for v in range(*node['range']))
+    if k == 'map':
+        return est_ticks(node['sub'], step, I.map_env(node, env))
     return est_ticks(node['sub'], step, env)
+
+
+def times_ok(node, step, env):
+    """every time of the tree (durations, table times, windows) is a whole number of ticks under every scope that
+    reaches it, durations are positive, windows non-negative (parameter mappings can rebind a name that a duration
+    uses to a fractional or negative value: such trees are not generated)"""
+    step = F(step)
+
+    def tick(x, lo):
+        v = I.num(x, env) / step
+        return v.denominator == 1 and v >= lo
+    k = node['k']
+    if not all(tick(m[1], 0) and tick(m[2], 0) for m in node.get('meas', [])):
+        return False
+    if k in ('const', 'func'):
+        return tick(node['dur'], 1)
+    if k == 'table':
+        return all(tick(e[0], 0) for es in node['entries'].values() for e in es)
+    if k == 'amc':
+        return all(times_ok(c, step, env) for c in node['subs'])
+    if k == 'for':
+        return all(times_ok(node['body'], step, dict(env, **{node['idx']: v})) for v in range(*node['range']))
+    if k == 'map':
+        return times_ok(node['sub'], step, I.map_env(node, env))
+    return all(times_ok(c, step, env) for c in I.children(node))
 
 
 def gen_opt_cases(rng, n_trees, depth, subsets_per_tree, exhaustive=False):
@@ -367,8 +451,13 @@ def gen_opt_cases(rng, n_trees, depth, subsets_per_tree, exhaustive=False):
         step = rng.choice(STEPS)
         g = Gen(rng, step)
         chans = rng.choice([['A'], ['A', 'B'], ['A', 'B'], ['B', 'C']])
-        tree = g.tree(rng.randint(1, depth), chans)
-        t = est_ticks(tree, step)
+        params = {'p': _fr(rng.choice([0, 1, 2, -1, F(1, 2)]))} if rng.random() < 0.35 else None
+        tree = g.tree(rng.randint(1, depth), chans, idxs=list(params or ()))
+        if params and 'p' not in free_names(tree):
+            params = None
+        if (params or has_pmap(tree)) and not times_ok(tree, step, {k: F(v) for k, v in (params or {}).items()}):
+            continue
+        t = est_ticks(tree, step, {k: F(v) for k, v in (params or {}).items()})
         if t > 60 or t <= 0 and rng.random() < 0.8:
             continue
         paths = I.all_paths(tree)
@@ -390,8 +479,26 @@ def gen_opt_cases(rng, n_trees, depth, subsets_per_tree, exhaustive=False):
             G = None
             if rng.random() < (0.35 if exhaustive else 0.55) or not sub:
                 G, _ = g.trafo(out_channels(tree))
-            cases.append({'kind': 'opt', 'step': step, 'tree': tree, 'S': pick_S(rng, tree, sub), 'G': G})
+            c = {'kind': 'opt', 'step': step, 'tree': tree, 'S': pick_S(rng, tree, sub), 'G': G}
+            if params:
+                c['params'] = params
+            flags(rng, c)
+            cases.append(c)
     return cases
+
+
+def has_pmap(tree):
+    return any(I.node_at(tree, p).get('pmap') for p in I.all_paths(tree))
+
+
+def flags(rng, c):
+    """stateful / aliasing variants of a case: `share` = structurally equal sub-trees are ONE template object,
+    `reuse` = the plain run and the option run compile the SAME template objects (and the plain run is repeated
+    afterwards: it must not have changed)"""
+    if rng.random() < 0.3:
+        c['share'] = True
+    if rng.random() < 0.4:
+        c['reuse'] = True
 
 
 # boundary / regression shapes that must always be present
@@ -434,7 +541,178 @@ def fixed_cases():
                 'G': {'k': 'linear', 'ins': ['X', 'B'], 'outs': ['Y', 'Z'], 'mat': [['1', '1'], ['1', '-1']]}})
     out.append({'kind': 'ctor', 'step': '1/2', 'op': 'paratomic', 'args': [amc, A('2', {'C': '1'}, meas=[['k', '0', '1']])]})
     out.append({'kind': 'ctor', 'step': '1/2', 'op': 'paratomic', 'args': [dict(amc, id=None), A('2', {'C': '1'})]})
+    # stepped scan whose body rebinds the loop index NAME through a mapping and repeats a hold (seeded change C05-4):
+    # collapsing the repetition / the mapping / the loop / everything must not change what is played
+    hold = A('2', {'A': ['0', 'i', '1']}, id='hold', meas=[['m', '0', '1']])
+    scan = {'k': 'for', 'id': 'scan', 'meas': [], 'idx': 'i', 'range': [0, 3, 1], 'body': {
+        'k': 'map', 'id': 'scaled', 'chmap': {}, 'pmap': {'i': ['0', 'p', '1', 'i', '1/2']}, 'sub': {
+            'k': 'rep', 'id': 'burst', 'meas': [], 'n': 2, 'body': hold}}}
+    t = {'k': 'seq', 'id': 'pulse', 'meas': [], 'subs': [A('2', {'A': '0'}), scan]}
+    for names in (['hold'], ['burst'], ['scaled'], ['scan'], ['pulse'], ['burst', 'scan']):
+        out.append({'kind': 'opt', 'step': '1/2', 'tree': t, 'params': {'p': '1'},
+                    'S': [{'by': 'name', 'name': x} for x in names], 'G': None})
+    # swap of two loop indices below both loops
+    sw = {'k': 'for', 'id': None, 'meas': [], 'idx': 'j', 'range': [0, 2, 1], 'body': {
+        'k': 'for', 'id': 'in', 'meas': [], 'idx': 'i', 'range': [0, 3, 1], 'body': {
+            'k': 'map', 'id': 'sw', 'chmap': {}, 'pmap': {'i': ['0', 'j', '1'], 'j': ['0', 'i', '1']}, 'sub': {
+                'k': 'rep', 'id': 'r', 'meas': [], 'n': 2, 'body': A('1', {'A': ['0', 'i', '1', 'j', '1/4']}, id='a')}}}}
+    for names in ([], ['r'], ['sw'], ['in']):
+        out.append({'kind': 'opt', 'step': '1', 'tree': sw, 'S': [{'by': 'name', 'name': x} for x in names], 'G': None})
     return out
+
+
+# ---- the loop index (or another name) rebound between a loop and the templates that read it ---------------------------
+def rebind_tree(rng, g, w_outer, w_inner, pm, rng_for=(0, 3, 1), inner_for=False):
+    """for i in range: W_outer( MappingPT{pm}( W_inner( atom reading i [and j] ) ) ); every node named"""
+    A = lambda dur, vals, meas=None: {'k': 'const', 'id': g.ident(1), 'dur': dur, 'vals': vals, 'meas': meas or []}
+    one = g.tm(1)
+    atom = A(g.tm(2), {'A': ['0', 'i', '1'] + (['j', '1/2'] if inner_for else [])}, meas=[['m', g.tm(0), one]])
+
+    def wrap(node, kinds):
+        for k in reversed(kinds):
+            if k == 'rep':
+                node = {'k': 'rep', 'id': g.ident(1), 'meas': [], 'n': 2, 'body': node}
+            elif k == 'rep1':
+                node = {'k': 'rep', 'id': g.ident(1), 'meas': [['n', g.tm(0), one]], 'n': 1, 'body': node}
+            elif k == 'seq':
+                node = {'k': 'seq', 'id': g.ident(1), 'meas': [], 'subs': [node, A(one, {'A': ['1/2', 'i', '-1']})]}
+            elif k == 'rev':
+                node = {'k': 'rev', 'id': g.ident(1), 'sub': node}
+            elif k == 'arith':
+                node = {'k': 'arith', 'id': g.ident(1), 'op': '+', 'side': 'l', 'scalar': ['0', 'i', '2'], 'sub': node}
+            elif k == 'par':
+                node = {'k': 'par', 'id': g.ident(1), 'ov': {'B': ['1', 'i', '1']}, 'sub': node}
+            elif k == 'chmap':
+                node = {'k': 'map', 'id': g.ident(1), 'chmap': {}, 'sub': node}
+            else:
+                raise ValueError(k)
+        return node
+    inner = wrap(atom, list(w_inner))
+    mapped = {'k': 'map', 'id': g.ident(1), 'chmap': {}, 'pmap': pm, 'sub': inner}
+    body = wrap(mapped, list(w_outer))
+    return {'k': 'for', 'id': g.ident(1), 'meas': [], 'idx': 'i', 'range': list(rng_for), 'body': body}
+
+
+REBIND_WRAPPERS = ['rep', 'rep1', 'seq', 'rev', 'arith', 'par', 'chmap']
+REBIND_MAPS = [{'i': ['1', 'i', '1/2']},                 # i -> 1 + i/2
+               {'i': ['0', 'i', '1']},                   # identity written out
+               {'i': ['0', 'i', '-1']},
+               {'i': ['0', 'p', '1', 'i', '1/2']},       # i -> p + i/2 (needs the top-level parameter p)
+               {'i': ['2', 'p', '1']}]                   # i -> 2 + p: the body no longer reads the loop index ...
+
+
+def gen_rebind_cases(rng, n, exhaustive=False):
+    """class `name coincidence`: a MappingPT between a ForLoopPT and the templates that read the index maps the index
+    NAME to an expression of itself; every builder feature that could re-inject the raw index (repetition, sequence,
+    reversal, sub-program) is put between the mapping and the reader, and every single node + random subsets are
+    collapsed"""
+    combos = [((), ())] + [((), (w,)) for w in REBIND_WRAPPERS] + [((w,), ()) for w in REBIND_WRAPPERS]
+    if exhaustive:
+        combos += [((a,), (b,)) for a in REBIND_WRAPPERS for b in REBIND_WRAPPERS]
+        combos += [((), (a, b)) for a in REBIND_WRAPPERS for b in REBIND_WRAPPERS]
+    else:
+        combos += [((), tuple(rng.sample(REBIND_WRAPPERS, 2))) for _ in range(6)]
+        combos += [(tuple(rng.sample(REBIND_WRAPPERS, 1)), tuple(rng.sample(REBIND_WRAPPERS, 2))) for _ in range(6)]
+    cases = []
+    while exhaustive or len(cases) < n:
+        before = len(cases)
+        for wo, wi in combos:
+            step = rng.choice(STEPS)
+            g = Gen(rng, step)
+            pm = copy.deepcopy(rng.choice(REBIND_MAPS[:4]))
+            swap = rng.random() < 0.2
+            if swap:
+                pm = {'i': ['0', 'j', '1'], 'j': ['0', 'i', '1']}
+            params = {'p': _fr(rng.choice([1, 2, -1]))} if any('p' in expr_names(e) for e in pm.values()) else None
+            tree = rebind_tree(rng, g, wo, wi, pm, rng.choice([(0, 3, 1), (2, 0, -1), (1, 2, 1)]), inner_for=swap)
+            if swap:
+                tree = {'k': 'for', 'id': g.ident(1), 'meas': [], 'idx': 'j', 'range': [0, 2, 1], 'body': tree}
+                if 'j' not in free_names(tree['body']):
+                    continue
+            paths = I.all_paths(tree)
+            subsets = [[]] + [[p] for p in paths] if exhaustive else \
+                [[rng.choice(paths)] for _ in range(2)] + [[p for p in paths if rng.random() < 0.35]]
+            for sub in subsets:
+                G = {'k': 'offset', 'm': {'A': '1'}} if rng.random() < 0.25 else None
+                c = {'kind': 'opt', 'step': step, 'tree': tree, 'S': pick_S(rng, tree, sub), 'G': G, 'family': 'rebind'}
+                if params:
+                    c['params'] = params
+                flags(rng, c)
+                cases.append(c)
+                if len(cases) >= n and not exhaustive:
+                    return cases
+        if exhaustive or len(cases) == before:
+            break
+    return cases
+
+
+# ---- small shapes on which a collapse meets a waveform smart constructor ----------------------------------------------
+def gen_shape_cases(rng, n):
+    """two classes the random trees hit only by luck:
+    (a) the collapsed node compiles to ONE transformed non-constant leaf (ArithmeticPT / ParallelChannelPT directly
+        around an atom) and a further, non-commuting transformation arrives from outside (global or an enclosing
+        ArithmeticPT): nested TransformingWaveforms;
+    (b) wait - pulse - wait: a sequence of constant holds around a collapsed non-constant sequence / repetition, the
+        enclosing sequence collapsed as well (SequenceWaveform.from_sequence with a nested SequenceWaveform between
+        equal / different constants)"""
+    cases = []
+    while len(cases) < n:
+        step = rng.choice(STEPS)
+        g = Gen(rng, step)
+        tab = lambda: g.simple_atom(['A'], [], None)
+        if rng.random() < 0.5:
+            atom = tab()
+            sv = lambda mul: _fr(rng.choice([2, -1, F(1, 2), 4]) if mul else rng.choice([1, -1, F(1, 2), 2]))
+            if rng.random() < 0.7:
+                op = rng.choice('+-*/')
+                node = {'k': 'arith', 'id': 'w', 'op': op, 'side': 'l' if op == '/' else rng.choice('lr'),
+                        'scalar': sv(op in '*/'), 'sub': atom}
+            else:
+                node = {'k': 'par', 'id': 'w', 'ov': {rng.choice('AB'): _fr(g.val())}, 'sub': atom}
+            tree = node
+            r = rng.random()
+            if r < 0.4:
+                op = rng.choice('+-*/')
+                tree = {'k': 'arith', 'id': 'o', 'op': op, 'side': 'l' if op == '/' else rng.choice('lr'),
+                        'scalar': sv(op in '*/'), 'sub': node}
+            elif r < 0.6:
+                tree = {'k': 'seq', 'id': 'o', 'meas': [], 'subs': [node, g.simple_atom(out_channels(node), [], None)]}
+            G = None
+            if rng.random() < 0.7 or tree is node:
+                G = rng.choice([{'k': 'offset', 'm': {'A': _fr(g.val() or 1)}},
+                                {'k': 'scale', 'm': {'A': sv(True)}},
+                                {'k': 'linear', 'ins': ['A'], 'outs': ['X'], 'mat': [['2']]},
+                                {'k': 'chain', 'ts': [{'k': 'scale', 'm': {'A': '2'}}, {'k': 'offset', 'm': {'A': '1'}}]}])
+            names = rng.choice([['w'], ['w'], ['w', 'o'], ['o'], []])
+        else:
+            v = _fr(g.val())
+            hold = lambda val: {'k': 'const', 'id': None, 'dur': g.tm(rng.randint(1, 2)), 'vals': {'A': val}, 'meas': []}
+            r = rng.random()
+            if r < 0.5:
+                pulse = {'k': 'seq', 'id': 'w', 'meas': g.meas(2), 'subs': [tab() for _ in range(rng.randint(2, 3))]}
+            elif r < 0.8:
+                pulse = {'k': 'rep', 'id': 'w', 'meas': [], 'n': rng.choice([2, 3]), 'body': tab()}
+            else:
+                pulse = {'k': 'seq', 'id': 'w', 'meas': [], 'subs': [hold(v), tab()]}
+            last = v if rng.random() < 0.7 else _fr(g.val())
+            subs = [hold(v), pulse, hold(last)]
+            if rng.random() < 0.3:
+                subs.append(hold(last))
+            if rng.random() < 0.2:
+                subs = subs[1:]                                   # the pulse first
+            tree = {'k': 'seq', 'id': 'o', 'meas': g.meas(2), 'subs': subs}
+            if rng.random() < 0.3:
+                tree = {'k': 'rep', 'id': 'r', 'meas': [], 'n': 2, 'body': tree}
+            G = {'k': 'offset', 'm': {'A': '1'}} if rng.random() < 0.2 else None
+            names = rng.choice([['w', 'o'], ['w', 'o'], ['w'], ['o'], ['w', 'r']])
+        if est_ticks(tree, step) > 40:
+            continue
+        ids = {I.node_at(tree, p).get('id') for p in I.all_paths(tree)}
+        c = {'kind': 'opt', 'step': step, 'tree': tree, 'S': [{'by': 'name', 'name': x} for x in names if x in ids],
+             'G': G, 'family': 'shape'}
+        flags(rng, c)
+        cases.append(c)
+    return cases
 
 
 # ---- convenience constructors -----------------------------------------------------------------------------------------
@@ -607,12 +885,20 @@ def describe(pt):
         syms = sorted(e.free_symbols, key=str)
         if not syms:
             return _fr(vlib.to_fraction(float(e)) if not e.is_Rational else F(int(e.p), int(e.q)))
-        (s,) = syms
-        c0 = e.subs(s, 0)
-        k = sympy.simplify(e.subs(s, 1) - c0)
-        assert sympy.simplify(e - c0 - k * s) == 0, e
         tof = lambda v: F(int(v.p), int(v.q)) if v.is_Rational else vlib.to_fraction(float(v))
-        return [_fr(tof(c0)), str(s), _fr(tof(k))]
+        zero = {s: 0 for s in syms}
+        c0 = e.subs(zero)
+        out = [_fr(tof(c0))]
+        rest = e - c0
+        for s in syms:
+            one = dict(zero)
+            one[s] = 1
+            k = sympy.simplify(e.subs(one) - c0)
+            rest = rest - k * s
+            if k != 0:
+                out += [str(s), _fr(tof(k))]
+        assert sympy.simplify(rest) == 0, e          # affine
+        return out if len(out) > 1 else out[0]
 
     def meas(p):
         return [[m[0], numj(m[1]), numj(m[2])] for m in (p.measurement_declarations or [])]
@@ -646,9 +932,12 @@ def describe(pt):
         return {'k': 'for', 'id': ident, 'meas': meas(pt), 'idx': pt.loop_index, 'range': [int(x) for x in r],
                 'body': describe(pt.body)}
     if isinstance(pt, MappingPT):
-        assert all(str(v) == k for k, v in pt.parameter_mapping.items()), pt.parameter_mapping
-        return {'k': 'map', 'id': ident, 'chmap': dict(pt.channel_mapping),
+        node = {'k': 'map', 'id': ident, 'chmap': dict(pt.channel_mapping),
                 'mmap': {a: b for a, b in pt.measurement_mapping.items() if a != b}, 'sub': describe(pt.template)}
+        pm = {k: numj(v) for k, v in pt.parameter_mapping.items() if str(v) != k}
+        if pm:
+            node['pmap'] = pm
+        return node
     if isinstance(pt, ParallelChannelPT):
         return {'k': 'par', 'id': ident, 'ov': {c: numj(v) for c, v in pt.overwritten_channels.items()},
                 'sub': describe(pt.template)}
@@ -670,10 +959,15 @@ def gen_cases(rng, tier, ctx):
     if tier == 'quick':
         cases += gen_opt_cases(rng, 200, 3, 3)
         cases += gen_opt_cases(rng, 25, 2, 0, exhaustive=True)
+        cases += gen_rebind_cases(rng, 90)
+        cases += gen_shape_cases(rng, 120)
         cases += gen_ctor_cases(rng, 250)
     else:
         cases += gen_opt_cases(rng, 900, 4, 4)
         cases += gen_opt_cases(rng, 150, 3, 0, exhaustive=True)
+        cases += gen_rebind_cases(rng, 0, exhaustive=True)
+        cases += gen_rebind_cases(rng, 400)
+        cases += gen_shape_cases(rng, 800)
         cases += gen_ctor_cases(rng, 1200)
     return cases
 
@@ -698,11 +992,22 @@ def run_impl(case):
     import warnings
     if case['kind'] == 'opt':
         def go():
-            plain = I.run_options(case['tree'], [], None, case['step'])
-            opt = _guard(lambda: I.run_options(case['tree'], case['S'], case['G'], case['step']))
+            kw = {'params': case.get('params'), 'share': bool(case.get('share'))}
+            built = None
+            if case.get('reuse'):
+                objs = {}
+                with warnings.catch_warnings():
+                    warnings.simplefilter('ignore')
+                    built = (I.build_pt(case['tree'], objs, share={} if case.get('share') else None), objs)
+            plain = I.run_options(case['tree'], [], None, case['step'], built=built, **kw)
+            opt = _guard(lambda: I.run_options(case['tree'], case['S'], case['G'], case['step'], built=built, **kw))
             for o in (plain, opt):
                 if 'crash' in o or 'hang' in o:
                     return o
+            if built is not None:
+                again = I.run_options(case['tree'], [], None, case['step'], built=built, **kw)
+                if again != plain:
+                    return {'crash': 'the plain compilation of the same template objects differs after the option run'}
             return {'plain': plain, 'opt': opt}
         return _guard(go)
     if case['kind'] == 'ctor':
@@ -710,8 +1015,8 @@ def run_impl(case):
             with warnings.catch_warnings():
                 warnings.simplefilter('ignore')
                 built = ctor_call(case)
-                o1 = I.observe(built.create_program(), case['step'])
-                o2 = I.run_options(ctor_explicit(case), [], None, case['step'])
+                o1 = I.observe(built.create_program(parameters=I.py_params(case.get('params'))), case['step'])
+                o2 = I.run_options(ctor_explicit(case), [], None, case['step'], params=case.get('params'))
                 for o in (o1, o2):
                     if 'crash' in o:
                         return o
@@ -722,102 +1027,93 @@ def run_impl(case):
 
 # ---- Gallina printers -------------------------------------------------------------------------------------------------
 
+PN = {'i': 1, 'j': 2, 'l': 3, 'p': 4, 'q': 5}
+
+
 class Printer:
-    def __init__(self, step, tree, S_eff_paths=()):
+    """JSON tree -> Gallina term of type `ppt` (Param.v).  Nothing is evaluated here: expressions are printed as
+    they stand (times divided by the sampling step, so that they count ticks), for-loops as QFor, parameter mappings
+    as lists of expressions; the model instantiates, unrolls and detects constant tables itself."""
+
+    def __init__(self, step, tree=None, S_eff_paths=()):
         self.step = F(step)
         self.classes = {}
 
     def cls(self, node):
         return self.classes.setdefault(canon(node), len(self.classes) + 1)
 
-    def ticks(self, x, env):
-        v = I.num(x, env) / self.step
-        assert v.denominator == 1, 'time %s is not a multiple of the step' % v
-        return int(v)
+    def ex(self, x, scale=1):
+        if isinstance(x, list):
+            return '(EAff %s %s)' % (gQ(F(x[0]) * scale),
+                                     glist(lambda nk: '(%s, %s)' % (gN(PN[nk[0]]), gQ(nk[1] * scale)), I.terms(x)))
+        return '(EAff %s [])' % gQ(F(x) * scale)
 
-    def wins(self, node, env):
-        return glist(lambda m: '(%s, %s, %s)' % (gN(MN[m[0]]), gZ(self.ticks(m[1], env)), gZ(self.ticks(m[2], env))),
-                     node.get('meas', []))
+    def tex(self, x):
+        """a time, in ticks"""
+        if not isinstance(x, list):
+            v = F(x) / self.step
+            assert v.denominator == 1, 'time %s is not a multiple of the step' % v
+        return self.ex(x, 1 / self.step)
 
-    def win_terms(self, node, env):
-        return ['(%s, %s, %s)' % (gN(MN[m[0]]), gZ(self.ticks(m[1], env)), gZ(self.ticks(m[2], env)))
-                for m in node.get('meas', [])]
+    def wins(self, node):
+        return glist(lambda m: '(%s, %s, %s)' % (gN(MN[m[0]]), self.tex(m[1]), self.tex(m[2])), node.get('meas', []))
 
-    def atom_parts(self, node, env):
-        """(window terms, duration in ticks or None when the atom builds no waveform, [(channel, chdef term)]) of an
-        atomic template; an AtomicMultiChannelPT is the union of its sub-atoms (MultiChannelWaveform.from_parallel
-        flattens, get_measurement_windows collects)"""
+    def patom(self, node):
         k = node['k']
         if k == 'const':
-            return (self.win_terms(node, env), self.ticks(node['dur'], env),
-                    [(c, 'CConst (Some %s)' % gQ(I.num(v, env))) for c, v in sorted(node['vals'].items())])
+            return '(AConst %s %s)' % (self.tex(node['dur']), glist(
+                lambda cv: '(%s, %s)' % (gN(CH[cv[0]]), self.ex(cv[1])), sorted(node['vals'].items())))
         if k == 'table':
             ip = {'hold': 'IHold', 'linear': 'ILinear', 'jump': 'IJump'}
-
-            def chdef(es):
-                vals = [I.num(e[1], env) for e in es]
-                # TableWaveform.from_table -> ConstantWaveform when every segment is constant (hold: start value,
-                # jump: end value, linear: equal ends) with one common value
-                seg = [{'hold': v1, 'jump': v2, 'linear': v1 if v1 == v2 else None}[e[2]]
-                       for v1, v2, e in zip(vals, vals[1:], es[1:])]
-                if all(v is not None and v == seg[0] for v in seg):
-                    return 'CConst (Some %s)' % gQ(seg[0])
-                return 'CTable %s' % glist(lambda e: '(%s, %s, %s)' % (gZ(self.ticks(e[0], env)), gQ(I.num(e[1], env)),
-                                                                       ip[e[2]]), es)
-            return (self.win_terms(node, env), self.ticks(list(node['entries'].values())[0][-1][0], env),
-                    [(c, chdef(es)) for c, es in sorted(node['entries'].items())])
+            return '(ATable %s)' % glist(lambda ce: '(%s, %s)' % (gN(CH[ce[0]]), glist(
+                lambda e: '(%s, %s, %s)' % (self.tex(e[0]), self.ex(e[1]), ip[e[2]]), ce[1])), sorted(node['entries'].items()))
         if k == 'func':
-            a = I.num(node['a'], env) * self.step                   # slope per tick
-            b = I.num(node['b'], env)
-            d = 'CFun %s %s' % (gQ(a), gQ(b)) if a != 0 else 'CConst (Some %s)' % gQ(b)   # from_expression
-            return self.win_terms(node, env), self.ticks(node['dur'], env), [(node['ch'], d)]
-        if k == 'amc':
-            wins = self.win_terms(node, env)
-            chs = []
-            dur = None
-            for s in node['subs']:
-                w, d, c = self.atom_parts(s, env)
-                wins += w
-                if d is None or d <= 0:
-                    continue                                        # that subtemplate builds no waveform
-                dur = d if dur is None else dur
-                assert d == dur, 'AtomicMultiChannelPT over different durations'
-                chs += c
-            return wins, dur, chs
+            assert not isinstance(node['a'], list)
+            return '(AFun %s %s %s %s)' % (gN(CH[node['ch']]), self.tex(node['dur']), gQ(F(node['a']) * self.step),
+                                           self.ex(node['b']))
         raise ValueError(k)
 
-    def pt(self, node, env):
+    def pamc(self, node):
+        if node['k'] == 'amc':
+            return '(MNode %s %s)' % (self.wins(node), glist(self.pamc, node['subs']))
+        return '(MLeaf %s %s)' % (self.wins(node), self.patom(node))
+
+    def pt(self, node, env=None):
         k = node['k']
         i = gN(self.cls(node))
         if k in ('const', 'table', 'func', 'amc'):
-            wins, d, chs = self.atom_parts(node, env)
-            return '(PAtom %s %s %s %s)' % (i, glist(lambda x: x, wins), gZ(0 if d is None else d),
-                                            glist(lambda cd: '(%s, %s)' % (gN(CH[cd[0]]), cd[1]), sorted(chs)))
+            return '(QAtom %s %s)' % (i, self.pamc(node))
         if k == 'seq':
-            return '(PSeq %s %s %s)' % (i, self.wins(node, env), glist(lambda s: self.pt(s, env), node['subs']))
+            return '(QSeq %s %s %s)' % (i, self.wins(node), glist(lambda c: self.pt(c), node['subs']))
         if k == 'rep':
-            return '(PRep %s %s %s %s)' % (i, self.wins(node, env), vlib.gnat(node['n']), self.pt(node['body'], env))
+            return '(QRep %s %s %s %s)' % (i, self.wins(node), vlib.gnat(node['n']), self.pt(node['body']))
         if k == 'for':
-            return '(PSeq %s %s %s)' % (i, self.wins(node, env), glist(
-                lambda v: self.pt(node['body'], dict(env, **{node['idx']: v})), list(range(*node['range']))))
+            a, b, st = node['range']
+            return '(QFor %s %s %s %s %s %s %s)' % (i, self.wins(node), gN(PN[node['idx']]), gZ(a), gZ(b), gZ(st),
+                                                    self.pt(node['body']))
         if k == 'map':
             ren = glist(lambda ab: '(%s, %s)' % (gN(CH[ab[0]]), gN(CH[ab[1]])), sorted(node['chmap'].items()))
             mren = glist(lambda ab: '(%s, %s)' % (gN(MN[ab[0]]), gN(MN[ab[1]])), sorted((node.get('mmap') or {}).items()))
-            return '(PMap %s %s %s %s)' % (i, ren, mren, self.pt(node['sub'], env))
+            pm = glist(lambda ne: '(%s, %s)' % (gN(PN[ne[0]]), self.ex(ne[1])), sorted((node.get('pmap') or {}).items()))
+            return '(QMap %s %s %s %s %s)' % (i, ren, mren, pm, self.pt(node['sub']))
         if k == 'par':
-            ov = glist(lambda cv: '(%s, %s)' % (gN(CH[cv[0]]), gQ(I.num(cv[1], env))), sorted(node['ov'].items()))
-            return '(PPar %s %s %s)' % (i, ov, self.pt(node['sub'], env))
+            ov = glist(lambda cv: '(%s, %s)' % (gN(CH[cv[0]]), self.ex(cv[1])), sorted(node['ov'].items()))
+            return '(QPar %s %s %s)' % (i, ov, self.pt(node['sub']))
         if k == 'arith':
             op = {'+': 'AAdd', '-': 'ASub', '*': 'AMul', '/': 'ADiv'}[node['op']]
             sc = node['scalar']
             if isinstance(sc, dict):
-                s = '(SMap %s)' % glist(lambda cv: '(%s, %s)' % (gN(CH[cv[0]]), gQ(I.num(cv[1], env))), sorted(sc.items()))
+                s = '(QSMap %s)' % glist(lambda cv: '(%s, %s)' % (gN(CH[cv[0]]), self.ex(cv[1])), sorted(sc.items()))
             else:
-                s = '(SAll %s)' % gQ(I.num(sc, env))
-            return '(PArith %s %s %s %s %s)' % (i, op, gbool(node['side'] == 'l'), s, self.pt(node['sub'], env))
+                s = '(QAll %s)' % self.ex(sc)
+            return '(QArith %s %s %s %s %s)' % (i, op, gbool(node['side'] == 'l'), s, self.pt(node['sub']))
         if k == 'rev':
-            return '(PRev %s %s)' % (i, self.pt(node['sub'], env))
+            return '(QRev %s %s)' % (i, self.pt(node['sub']))
         raise ValueError(k)
+
+
+def g_params(params):
+    return glist(lambda kv: '(%s, %s)' % (gN(PN[kv[0]]), gQ(F(kv[1]))), sorted((params or {}).items()))
 
 
 def g_trafo(t):
@@ -872,11 +1168,12 @@ def to_coq(case, obs):
         term = pr.pt(case['tree'], {})
         eff = effective_paths(case['tree'], case['S'])
         S = sorted({pr.cls(I.node_at(case['tree'], p)) for p in eff})
-        return '(COpt %s %s %s %s %s)' % (term, glist(gN, S), g_trafo(case['G']), g_obs(obs['plain'], case['step']),
-                                          g_obs(obs['opt'], case['step']))
+        return '(COpt %s %s %s %s %s %s)' % (term, g_params(case.get('params')), glist(gN, S), g_trafo(case['G']),
+                                             g_obs(obs['plain'], case['step']), g_obs(obs['opt'], case['step']))
     pr = Printer(case['step'], None)
-    return '(CSame %s %s %s %s)' % (pr.pt(obs['built'], {}), pr.pt(ctor_explicit(case), {}),
-                                    g_obs(obs['o1'], case['step']), g_obs(obs['o2'], case['step']))
+    return '(CSame %s %s %s %s %s)' % (pr.pt(obs['built'], {}), pr.pt(ctor_explicit(case), {}),
+                                       g_params(case.get('params')),
+                                       g_obs(obs['o1'], case['step']), g_obs(obs['o2'], case['step']))
 
 
 # ---------------------------------------------------------------------------------------------------------------------
